@@ -120,11 +120,10 @@ Definition nb (s : string) : bool := negb (I.has_char "["%char s).
 (* ------------------------------------------------------------------------------------------- *)
 (* guards of the agreement theorems (all computable)                                             *)
 (* ------------------------------------------------------------------------------------------- *)
-(* unwrap: a string alias at the end of the wrapper chain lives in the one module of Inspect.v's universe, and
-   refs.forwardref has nothing to strip from its text *)
+(* unwrap: a string alias at the end of the wrapper chain lives in the one module of Inspect.v's universe *)
 Definition unwrap_guard (t : G.gty) : bool :=
   match wend t with
-  | G.GAliasStr m _ body => String.eqb m I.user_module && String.eqb (G.remove_all (m +++ ".") body) body
+  | G.GAliasStr m _ _ => String.eqb m I.user_module
   | _ => true
   end.
 
@@ -151,16 +150,12 @@ Fixpoint std_guard (t : G.gty) : bool :=
   | _ => negb (wrapped_union t)
   end.
 
-(* should_unwrap: no qualifier hidden behind a NewType / alias *)
-Definition su_guard (c : G.gty) : bool := negb (is_wrapper c && is_final (wcore c)).
-
 (* a ForwardRef whose text starts with "Literal" counts as a literal for inspection.isliteral *)
 Definition ref_literal (t : G.gty) : bool :=
   match t with G.GRef a _ => I.prefixb "Literal" a | _ => false end.
 
-(* isfixedtupletype: tuple[()] is a fixed tuple for inspection.py since /repo 330087d *)
-Definition empty_tuple (t : G.gty) : bool :=
-  match t with G.GGen G.GTuple [] => true | _ => false end.
+(* inspection.isliteral on any annotation: a Literal behind NewTypes / aliases, or a reference named Literal.. *)
+Definition lit_core (t : G.gty) : bool := match wcore t with G.GLit _ => true | _ => false end.
 
 (* what isstructuredtype answers on the image of an unwrapped annotation *)
 Definition structured_g (t : G.gty) : bool :=
@@ -169,7 +164,7 @@ Definition structured_g (t : G.gty) : bool :=
   | G.GNone => false
   | G.GEllipsis | G.GAny | G.GClass _ => true
   | G.GLit _ | G.GUnion _ _ => false
-  | G.GGen _ _ => G.is_fixed_tuple t || empty_tuple t
+  | G.GGen _ _ => G.is_fixed_tuple t
   | G.GRef a _ => negb (I.prefixb "Literal" a)
   | _ => false
   end.
@@ -373,13 +368,13 @@ Definition check_obs (T : I.tables) (Nm : names) (E : G.env) (t : G.gty) (o : ob
   ++ chk 105 true (Bool.eqb (I.isstructuredtype T x) (o_struct o))
   ++ chk 6 true (Bool.eqb (G.is_union (wcore t)) (o_union o))
   ++ chk 106 true (Bool.eqb (I.isuniontype T x) (o_union o))
-  ++ chk 7 true (Bool.eqb (G.is_literal (wcore t) || ref_literal t) (o_lit o))
+  ++ chk 7 (negb (is_wrapper t)) (Bool.eqb (G.is_literal t) (o_lit o))
   ++ chk 107 true (Bool.eqb (I.isliteral T x) (o_lit o))
   ++ chk 8 true (Bool.eqb (G.is_ref t) (o_ref o))
   ++ chk 108 true (Bool.eqb (I.isforwardref x) (o_ref o))
-  ++ chk 9 true (Bool.eqb (is_final (wcore t)) (o_su o))
+  ++ chk 9 true (Bool.eqb (G.should_unwrap t) (o_su o))
   ++ chk 109 true (Bool.eqb (I.should_unwrap T x) (o_su o))
-  ++ chk 10 true (Bool.eqb (G.is_fixed_tuple t || empty_tuple t) (o_ft o))
+  ++ chk 10 true (Bool.eqb (G.is_fixed_tuple t) (o_ft o))
   ++ chk 110 true (Bool.eqb (I.isfixedtupletype T x) (o_ft o))
   ++ chk 11 true (Bool.eqb (is_ellipsis t || is_any t) (o_unres o))
   ++ chk 111 true (Bool.eqb (I.isunresolvable T x) (o_unres o))
